@@ -31,6 +31,9 @@ CLAIMED = {
  'C09': ('3.9', 'symbolic execution of the real raster / text serialisers (through writers.save) on matrices of free module bits; format readers written in /verif turn the written symbolic bytes / symbolic text into one colour term per pixel; pixel == module colour decided by z3',
          'For every listed (format, size, scale, border, colour configuration) z3 shows for ALL module values that the file is well-formed (signature, header fields, declared dimensions == pixel data == (size+2b)*s, PNG chunk order and every CRC field being the crc32 of exactly that chunk) and that every pixel has the dark colour iff the module under it is dark, the quiet zone light; colourful PNG/PPM: the colour configured for the ISO type of the module. Scale/border refusals over symbolic numbers.',
          'trusted: format readers and reference colour values in /verif/props/c09.py, zlib (compress stubbed to a marked identity, crc32 to a recorded token), z3; ANSI terminal only up to 2 x 5 modules'),
+ 'C10': ('3.10', 'symbolic execution of utils.matrix_to_lines on free module bits (forking) and of the real SVG/EPS/PDF/TikZ writers with the border resp. the scale as symbolic numbers carried through the document text as placeholders; format readers rebuild page box, transforms and stroked segments as linear terms, compared by z3 (LRA/NRA)',
+         'z3 shows: for all module values (matrices up to 3x4 / 2x5) and every integer origin the yielded segments cover exactly the dark cells, each once; for EVERY border >= 0 (scales 1, 2, 10, 0.5, 2.5) and for EVERY scale k/8 (borders default, 0, 1) the page box is (size+2b)*scale and every stroked segment is the unit-high stroke over its dark run, in the requested colour, with a requested light colour filling the page; SVG options enumerated. PDF /Length, xref offsets, XML well-formedness for concrete parameter sets.',
+         'trusted: format readers in /verif/props/c10.py, exact-arithmetic assumption for scales k/8, z3; module values concrete in the writer runs (their symbolic treatment is the kernel check)'),
  'C11': ('3.11', 'symbolic execution of the real matrix_iter / matrix_iter_verbose (generator with nested classifier) on symbols whose format, version and data modules are free bits; every yielded cell compared by z3 with the ISO type of its position in the dark/light variant',
          'For all 44 sizes and the listed border/scale combinations z3 shows for ALL module values that verbose iteration reports the ISO module type in the variant matching the module value (type >> 8 != 0 iff dark), plain iteration the module value, quiet zone and repetition by scale as specified; border/scale validation over symbolic numbers; the per-type colour map falls back to dark/light (opaque sentinels). Colourful PNG/PPM rendering is decided in the C09 check (png-colorful / ppm-colorful jobs), colourful SVG in C10.',
          'trusted: ISO layout classifier /verif/ref/layout.py, z3; the recorded deviation at cell (8, size-9) is pinned to its exact deviant oracle'),
